@@ -33,9 +33,28 @@ def sh(cmd, timeout=None, cwd=None, env=None, input=None):
 # ---------------------------------------------------------------- translator
 
 def regen():
+    """Regenerate coq/Generated.v.  rc 0: everything read; rc 3: some items could not be read any more (renamed or
+    removed in the source) and keep their previous values -- regen_failed() lists them; rc 2: nothing could be read."""
     rc, out = sh([sys.executable, os.path.join(VERIF, "tools/gen_constants.py"),
                   "--repo", REPO], timeout=600)
-    return rc == 0, out
+    return rc in (0, 3), out
+
+
+def regen_failed():
+    """[{file, item, kind, message}] of the last translator run"""
+    p = os.path.join(VERIF, "build", "translator_status.json")
+    try:
+        return json.load(open(p)).get("failed", [])
+    except (OSError, ValueError):
+        return []
+
+
+def anchor_files(pid):
+    for line in open(os.path.join(VERIF, "properties.jsonl")):
+        d = json.loads(line)
+        if d.get("id") == pid:
+            return set(d.get("anchors", {}).get("files", []))
+    return set()
 
 
 # ---------------------------------------------------------------- Coq
